@@ -18,12 +18,16 @@ PROPS['C20'] = dict(
          'depth <= 4 (thorough <= 6), 35% at a point in time drawn from the history; leaves draw their values from the entities actually present (so partial / prefix addresses, dates, '
          'balances and metadata hit); second tie adds the forms outside the documented surface (bare balance on accounts, $in on metadata / log type, $exists on balance, empty $and/$or, '
          'keys of other resources, wrong operators and value types). non-trivial = filter selecting neither nothing nor everything, distinct by (resource, filter, selected keys); '
-         'stats carry the distribution of leaf kinds, operators, address forms, depth and the none/some/all split',
+         'a quarter of the filters (40% on volumes / aggregated balances) are negation-heavy: nested $not (double / triple), $not over $and / $or mixing an address-carrying subtree '
+         '(mostly partial / prefix, also exact and $in) with non-address leaves, incl. NOT(X AND NOT A) templates; '
+         'stats carry the distribution of leaf kinds, operators, address forms, depth, the none/some/all split and, per filter, where address leaves sit: number of $not above '
+         '(none / odd / even>=2 / >=3) x mixed or plain sibling branches (negs_*), overall and on volumes+aggregated',
     explanation='The case carries the entity table read WITHOUT filter through the real read paths (same point in time) and the filter. Implementation line: (res) sorted keys of the '
                 'entities listed by the real ListTransactions/ListAccounts/GetVolumesWithBalances/ListLogs/GetAggregatedBalances through the controller + the real Count* '
                 '(volumes and logs: count through the real store), or the error class; (ref) the answer of the Go reference evaluator (monitor); (where) the WHERE fragment of the real '
                 'ResolveFilter + Builder.Build (in-package hook, add-only). Model line: (res) flt_list = validation + SQL three-valued evaluation of flt_emit on the rows of the entities, '
-                'incl. the lateral push-down and SQLSTATE 21000; (ref) filter flt_sat — the Coq reference meaning; (where) printed flt_emit. All three must be textually equal. '
+                'incl. the lateral push-down and SQLSTATE 21000; (ref) filter flt_sat — the Coq reference meaning; (where) printed flt_emit; (push) the push-down DECISION: safe_lateral, need_segments, collect_addrs vs the real canPushAddressFilterToLateral / collectAddressFilters '
+                '(in-package hook) for every generated filter, so a wrong decision is a model/impl difference even when no row is lost. All four must be textually equal. '
                 'Monitor (independent Go evaluator): listed = matching, count = len(listed), well-formed filters are accepted, ill-formed rejected, no panic. '
                 'The full statement is REFUTED by the faithful model in three unrepaired ways (C20_refuted_not_over_absent, C20_refuted_bare_balance, C20_refuted_empty_or), each reproduced on the real '
                 'code (known_findings.d/filter.json); four further defects found here were repaired in /repo (fixes/01..04: $in on log type, $exists on balance, $in on metadata, push-down '
